@@ -67,6 +67,9 @@ type NodeService interface {
 
 type BaseNodeService struct {
 	sync.Mutex
+	// procMu serializes the handlers that read-modify-write the node state (operation pool, FSM dumps):
+	// applying a message from the append-only log and executing an operation received by the API
+	procMu                   sync.Mutex
 	ctx                      context.Context
 	userName                 string
 	pubKey                   ed25519.PublicKey
@@ -106,6 +109,9 @@ func (s *BaseNodeService) GetLogger() logger.Logger {
 }
 
 func (s *BaseNodeService) ProcessMessage(message storage.Message) error {
+	s.procMu.Lock()
+	defer s.procMu.Unlock()
+
 	if fsm.State(message.Event) == types.ReinitDKG {
 		if err := s.reinitDKG(message); err != nil {
 			return fmt.Errorf("failed to reinitDKG")
@@ -250,6 +256,9 @@ func (s *BaseNodeService) ProcessOperation(dto *dto.OperationDTO) error {
 }
 
 func (s *BaseNodeService) executeOperation(operation *types.Operation) error {
+	s.procMu.Lock()
+	defer s.procMu.Unlock()
+
 	if operation.Event.IsEmpty() {
 		return errors.New("operation is request operation, provide result operation instead")
 	}
